@@ -22,3 +22,4 @@ def run(prog, rep):
     _ro2.run_identity(prog, rep)
     _ro2.run_exact_compare(prog, rep)
     r_id.run_id_forward(prog, rep)
+    r_val.run_link_first(prog, rep)
